@@ -21,7 +21,7 @@ func init() {
 		RealParts:  []string{"Genome.compatibility with its linear and fast methods", "the epochs that produce the genomes"},
 		StubParts:  []string{"fitness assignment"},
 		Assumes:    []string{"gene lists are sorted by innovation number (C01)", "relative tolerance 1e-9 for the order of floating-point summation"},
-		ProbeNames: []string{"probe.pair.no_matching_gene", "probe.pair.interleaved_disjoint", "probe.pair.prefix", "probe.pair.long_excess_tail", "probe.pair.ancestor", "probe.pair.duplicate", "probe.pair.both_have_excess_or_disjoint"},
+		ProbeNames: []string{"probe.pair.no_matching_gene", "probe.pair.interleaved_disjoint", "probe.pair.prefix", "probe.pair.long_excess_tail", "probe.pair.ancestor", "probe.pair.duplicate", "probe.pair.same_genome_id", "probe.pair.innovations_beyond_2^33", "probe.pair.innovations_2^32_apart", "probe.pair.both_have_excess_or_disjoint"},
 	})
 }
 
@@ -90,7 +90,44 @@ func subsetGenome(g *genetics.Genome, keep func(i int) bool) *genetics.Genome {
 	return cl
 }
 
+// shiftInnovations returns a clone whose genes with innovation number >= pivot carry numbers moved up by delta
+// (order and, when applied to both genomes of a pair, the matching relation are preserved).
+func shiftInnovations(g *genetics.Genome, pivot, delta int64) *genetics.Genome {
+	cl := CloneGenome(g, g.Id)
+	for _, gn := range cl.Genes {
+		if gn.InnovationNum >= pivot {
+			gn.InnovationNum += delta
+		}
+	}
+	return cl
+}
+
 func checkCompatPair(c *RunCtx, a, b *genetics.Genome, opts []*neat.Options, kind string) {
+	t := c.T
+	// variants of the pair that the formula must be blind to or must follow exactly
+	switch t.Pick("pair.variant", 6, 2, 1, 1) {
+	case 1:
+		// two different genomes may carry the same id (ids are per-species offspring counters and recur across species
+		// and generations; a baby is compared with representatives of the previous generation)
+		if a != b {
+			b = CloneGenome(b, a.Id)
+			c.Count("probe.pair.same_genome_id")
+		}
+	case 2:
+		// innovation numbers are 64-bit: both genomes keep their alignment, the tail moves beyond 2^33
+		if len(a.Genes) > 0 {
+			pivot := a.Genes[t.Draw("far.pivot", len(a.Genes))].InnovationNum
+			a, b = shiftInnovations(a, pivot, 1<<33), shiftInnovations(b, pivot, 1<<33)
+			c.Count("probe.pair.innovations_beyond_2^33")
+		}
+	case 3:
+		// only b's tail moves, by exactly 2^32: genes that matched no longer match
+		if len(b.Genes) > 0 {
+			pivot := b.Genes[t.Draw("far.pivot.b", len(b.Genes))].InnovationNum
+			b = shiftInnovations(b, pivot, 1<<32)
+			c.Count("probe.pair.innovations_2^32_apart")
+		}
+	}
 	ra, rb := Canon(a), Canon(b)
 	for _, o := range opts {
 		ref, ex, dj, match := RefCompat(ra, rb, o.DisjointCoeff, o.ExcessCoeff, o.MutdiffCoeff)
